@@ -606,3 +606,116 @@ def _walk_pat(p):
         yield from _walk_pat(p0["sub"])
     for s in p0.get("pats") or []:
         yield from _walk_pat(s)
+
+
+def flow(n, pred, called=False):
+    """Abstract run of expression `n`: the set of (exit, called) pairs it can end in, where exit is one of
+    'fall' (completes normally), 'break', 'continue', 'return', and `called` tells whether a node satisfying `pred`
+    has been evaluated on the way.  Conditions are not interpreted (both branches possible); nested loops may run zero
+    times; closures are not entered."""
+    if n is None:
+        return {("fall", called)}
+    if isinstance(n, list):
+        states = {("fall", called)}
+        for x in n:
+            nxt = set()
+            for ex, c in states:
+                if ex != "fall":
+                    nxt.add((ex, c))
+                else:
+                    nxt |= flow(x, pred, c)
+            states = nxt
+        return states
+    if not isinstance(n, dict):
+        return {("fall", called)}
+    k = n.get("k")
+    if k == "Closure":
+        return {("fall", called)}
+    if k == "Break":
+        return {("break", c) for ex, c in flow(n.get("value"), pred, called) if ex == "fall"} | {(ex, c) for ex, c in flow(n.get("value"), pred, called) if ex != "fall"}
+    if k == "Continue":
+        return {("continue", called)}
+    if k == "Return":
+        r = flow(n.get("value"), pred, called)
+        return {("return", c) if ex == "fall" else (ex, c) for ex, c in r}
+    if k == "Try":
+        r = flow(n["arg"], pred, called)
+        out = set()
+        for ex, c in r:
+            out.add((ex, c))
+            if ex == "fall":
+                out.add(("return", c))
+        return out
+    if k == "Block":
+        items = []
+        for s in n["stmts"]:
+            if s["k"] == "Expr":
+                items.append(s["e"])
+            else:
+                items.append(s.get("init"))
+                if s.get("else") is not None:
+                    items.append({"k": "_Maybe", "e": s["else"]})
+        items.append(n.get("expr"))
+        return flow(items, pred, called)
+    if k == "_Maybe":
+        return {("fall", called)} | flow(n["e"], pred, called)
+    if k == "If":
+        out = set()
+        for ex, c in flow(n["cond"], pred, called):
+            if ex != "fall":
+                out.add((ex, c))
+                continue
+            out |= flow(n["then"], pred, c)
+            out |= flow(n.get("else"), pred, c) if n.get("else") is not None else {("fall", c)}
+        return out
+    if k == "Match":
+        out = set()
+        for ex, c in flow(n["scrut"], pred, called):
+            if ex != "fall":
+                out.add((ex, c))
+                continue
+            for a in n["arms"]:
+                for ex2, c2 in flow(a.get("guard"), pred, c):
+                    if ex2 != "fall":
+                        out.add((ex2, c2))
+                    else:
+                        out |= flow(a["body"], pred, c2)
+        return out
+    if k in ("Loop", "For"):
+        out = set()
+        start = flow(n.get("iter"), pred, called) if k == "For" else {("fall", called)}
+        for ex, c in start:
+            if ex != "fall":
+                out.add((ex, c))
+                continue
+            out.add(("fall", c))  # zero iterations / left by break
+            for ex2, c2 in flow(n["body"], pred, c):
+                if ex2 in ("fall", "break", "continue"):
+                    out.add(("fall", c2))
+                else:
+                    out.add((ex2, c2))
+        return out
+    if k == "Logical":
+        out = set()
+        for ex, c in flow(n["lhs"], pred, called):
+            if ex != "fall":
+                out.add((ex, c))
+            else:
+                out.add(("fall", c))
+                out |= flow(n["rhs"], pred, c)
+        return out
+    # generic expression: children in evaluation order, then the node itself
+    kids = [v for key, v in n.items() if key not in ("pat",) and isinstance(v, (dict, list))]
+    out = set()
+    for ex, c in flow(kids, pred, called):
+        if ex == "fall" and pred(n):
+            c = True
+        out.add((ex, c))
+    return out
+
+
+def every_cycle_calls(loop, pred):
+    """every way of starting another iteration of `loop` (falling off the end of its body, or `continue`) has evaluated a
+    node satisfying pred"""
+    body = loop["body"]
+    return all(c for ex, c in flow(body, pred) if ex in ("fall", "continue"))
